@@ -40,18 +40,19 @@ Proof. intros r t. split; destruct t; reflexivity. Qed.
 Lemma raise_for_status_spec : forall c, 400 <= c < 600 -> raise_for_status c [] = Some (spec_status c).
 Proof.
   intros c H. unfold raise_for_status, spec_status.
-  change s3_status_lo with 400. change s3_status_hi with 600.
-  replace ((400 <=? c) && (c <? 600) && negb (memZ c [])) with true by (cbn; lia).
+  change s3_status_lo with 300. change s3_status_hi with 600.
+  replace ((300 <=? c) && (c <? 600) && negb (memZ c [])) with true by (cbn; lia).
   cbn [s3_status_chain s3_status_else find fst snd memZ existsb].
   destruct (c =? 401) eqn:E1; [reflexivity|].
   destruct (c =? 403) eqn:E3; [reflexivity|].
   cbn [orb]. destruct (c =? 404) eqn:E4; reflexivity.
 Qed.
 
-Lemma raise_for_status_range : forall c ign, raise_for_status c ign <> None -> 400 <= c < 600.
+(* since the repair of C08-F5g an answer the client cannot follow (3xx) is an error too: the range starts at 300 *)
+Lemma raise_for_status_range : forall c ign, raise_for_status c ign <> None -> 300 <= c < 600.
 Proof.
-  intros c ign. unfold raise_for_status. change s3_status_lo with 400. change s3_status_hi with 600.
-  destruct ((400 <=? c) && (c <? 600) && negb (memZ c ign)) eqn:E; [lia | congruence].
+  intros c ign. unfold raise_for_status. change s3_status_lo with 300. change s3_status_hi with 600.
+  destruct ((300 <=? c) && (c <? 600) && negb (memZ c ign)) eqn:E; [lia | congruence].
 Qed.
 
 (* ---------- Retry ---------- *)
